@@ -223,10 +223,11 @@ class Prover:
 
     def discharge(self, nproc=16):
         self.join_children()
-        res = solve.discharge_all(self.jobs + self.guards, nproc=nproc)
+        res = solve.discharge_all(self.jobs, nproc=nproc)
+        gres = solve.discharge_all(self.guards, nproc=nproc)          # own pool call: one guard per task, no queueing behind obligation chunks
         bad = []
         for g in self.guards:
-            st = res.pop(g[0], None)
+            st = gres.get(g[0])
             if st is not None and st[0] == 'proved':
                 bad.append(g[0])
                 self.report.error(f'{g[0]}: the hypotheses of this contract path are contradictory (every obligation on it holds vacuously)')
